@@ -22,7 +22,7 @@ fi
 # /verif/fuzz; its statistics are handed to tvh, which records them in the evidence file.
 FUZZ_RC=0
 unset VERIF_FUZZ_STATS
-case "$ID" in C02|C03|C04|C06|C07|C08|C09|C10|C11|C12|C13|C14|C15|C16|C17|C19) FT="$(echo "$ID" | tr 'C' 'c')" ;; *) FT="" ;; esac
+case "$ID" in C02|C03|C04|C05|C06|C07|C08|C09|C10|C11|C12|C13|C14|C15|C16|C17|C19|C20) FT="$(echo "$ID" | tr 'C' 'c')" ;; *) FT="" ;; esac
 if [ "$TIER" = "thorough" ] && [ -n "$FT" ] && [ "${VERIF_NO_FUZZ:-0}" != "1" ]; then
   cd "$HERE/fuzz" || exit 2
   if RUSTFLAGS="--cfg tokio_unstable --cfg turmoil_verif" cargo +nightly fuzz build --fuzz-dir . -s none "$FT" >"$HERE/harness/target/.fuzzbuild.log" 2>&1; then
